@@ -191,45 +191,67 @@ func (e *PathMatchExpression) PathMatches(base *Path, candidate *Path) bool {
 		return true
 	}
 	for _, path := range e.paths {
-
 		// NOTE: empty selector means select everything
 		if len(path) == 0 {
 			return true
 		}
-
-		if e.match(path, base, candidate) {
+		if selected, _ := e.match(path, base, candidate); selected {
 			return true
 		}
 	}
 	return false
 }
 
-func (e *PathMatchExpression) match(segs segments, base *Path, candidate *Path) bool {
-	p := candidate
-	j := (candidate.Len() - base.Len()) - 1
+// PathLeadsTo returns true if candidate, when you subtract the base, is a proper beginning of
+// a path selector: an ancestor of what the selector names.
+func (e *PathMatchExpression) PathLeadsTo(base *Path, candidate *Path) bool {
+	for _, path := range e.paths {
+		if _, leadsTo := e.match(path, base, candidate); leadsTo {
+			return true
+		}
+	}
+	return false
+}
 
+// PathMatchesExactly returns true if a path selector is the candidate when you subtract the
+// base.  An empty selector names the base itself.
+func (e *PathMatchExpression) PathMatchesExactly(base *Path, candidate *Path) bool {
+	n := candidate.Len() - base.Len()
+	if len(e.paths) == 0 {
+		return n == 0
+	}
+	for _, path := range e.paths {
+		if len(path) == n {
+			if selected, _ := e.match(path, base, candidate); selected {
+				return true
+			}
+		}
+	}
+	return false
+}
+
+// match compares the part of candidate below base with segs: selected when segs is a beginning
+// of it (or all of it), leadsTo when it is a proper beginning of segs.
+func (e *PathMatchExpression) match(segs segments, base *Path, candidate *Path) (selected bool, leadsTo bool) {
+	n := candidate.Len() - base.Len()
+	p := candidate
 	// start navigation at the end of the tail as it would likely be more efficient the longer
 	// the path
-	for i := len(segs) - 1; i >= 0; {
-
-		// we keep peeling back slice as long as it continues to match candidate as we
-		// peel that back as well.
-		if j == i {
-			if p.Meta.Ident() != segs[i] {
-				return false
-			}
-			i--
+	for j := n - 1; j >= 0; j-- {
+		if j < len(segs) && p.Meta.Ident() != segs[j] {
+			return false, false
 		}
 		p = p.Parent
 		if p == nil {
-			panic("illegal call : base was not found to be any parent of candidate")
+			return false, false
 		}
-		j--
 	}
-
 	// the subpath AFTER base path matches, now we have to see if we have same
 	// base paths
-	return p.EqualNoKey(base)
+	if !p.EqualNoKey(base) {
+		return false, false
+	}
+	return n >= len(segs), n < len(segs)
 }
 
 func (e *PathMatchExpression) String() string {
